@@ -283,7 +283,7 @@ def rule_r3(ctx: Ctx) -> None:
     # composites: structures / unions / delimited are handled (R1/R2); a service type is refused with TypeError
     sv = C.type_sym(ctx, "ServiceType", name="Svc", alignment_requirement=8)
     outcomes = {}
-    for fname, mk in (("_serialize_composite", lambda sink: ([C.AWriter(sink, "w"), sv, {}], {})), ("_deserialize_composite", lambda sink: ([C.AReader(sink, "r"), sv], {})), ("serialize", lambda sink: ([sv, {}], {})), ("deserialize", lambda sink: ([sv, Sym(_kind_="bytes")], {}))):
+    for fname, mk in (("_serialize_composite", lambda sink: ([C.AWriter(sink, "w"), sv, {}], {})), ("_deserialize_composite", lambda sink: ([C.AReader(sink, "r"), sv], {})), ("serialize", lambda sink: ([sv, {}], {})), ("deserialize", lambda sink: ([sv, C.AData()], {}))):
         rs = C.explore_codec(ctx, fname, mk)
         outcomes[fname] = sorted({r.raised or "ok" for r in rs})
         ctx.count()
